@@ -631,13 +631,17 @@ func writeEvidence(ck *Check, tier string, sd int64, m *Result, nviol int, known
 		"technique":                     ck.Technique,
 		"explanation":                   "every state is produced by running the real cockroachdb/errors code (no separate model of the library); the oracle is a reference model over the term that built the state",
 	}
+	assumptions := m.Assumptions
+	if assumptions == nil {
+		assumptions = []string{}
+	}
 	ev := map[string]interface{}{
 		"property_id": ck.ID,
 		"tier":        tier,
 		"seed":        sd,
 		"level":       level,
 		"coverage":    cov,
-		"assumptions": m.Assumptions,
+		"assumptions": assumptions,
 		"wall_s":      wall,
 		"violations":  nviol,
 	}
